@@ -31,6 +31,7 @@ UNITS = [
     "src/orange/surf/detail/SurfaceTranslator.cc",
     "src/orange/surf/Involute.cc",
     "src/orange/surf/detail/SurfaceTransformer.cc",
+    "src/orange/surf/SurfaceSimplifier.cc",
 ]
 
 
@@ -214,6 +215,7 @@ def run(db, cx):
     quadric_translation(db, cx)
     rebuild_from_accessors(db, cx)
     solver_dependence(db, cx)
+    plane_conversion(db, cx)
 
 
 def fmt(form):
@@ -417,3 +419,76 @@ def solver_dependence(db, cx):
                       why="no statement about the positive roots holds for all values of this "
                           "coefficient: an exit that ignores it is wrong for some surface")
     cx.floor("solver exits examined", n, 4)
+
+
+def plane_conversion(db, cx):
+    """C12.6-plane-conversion (A6 with a norm symbol): a quadric without second-order terms,
+    b.x + z = 0, is replaced by Plane{n, d}, i.e. n.x - d = 0 with n a unit vector.  The same
+    point set with the same orientation needs n = b/|b| and d = -z/|b| - both scaled by the same
+    positive factor.  The converter is interpreted with b, z symbolic and N = |b| a symbol
+    (N^2 = b.b; divisions by a monomial are exact in Laurent monomials)."""
+    from polyinterp import Poly, Interp, Return, as_poly
+    from astutil import OutOfVocabulary
+    name = C + "detail::QuadricPlaneConverter::operator()"
+    fs = [f for f in db.get(name) if f.r.get("ast")]
+    cx.require(fs, "anchor QuadricPlaneConverter::operator() (AST) not found")
+    f = fs[0]
+    b = [Poly.sym("b%d" % i) for i in range(3)]
+    z = Poly.sym("z")
+    N = Poly.sym("N")
+    B = b[0] * b[0] + b[1] * b[1] + b[2] * b[2]
+
+    def norm(args):
+        v = args[0]
+        if not isinstance(v, list) or len(v) != 3:
+            raise OutOfVocabulary("norm of a non-vector")
+        s2 = Poly()
+        for x in v:
+            s2 = s2 + as_poly(x) * as_poly(x)
+        # s2 must be m * (b.b) for one monomial m that is a perfect square
+        lead = [(k, c) for k, c in s2.t.items() if dict(k).get("b0") == 2
+                and "b1" not in dict(k) and "b2" not in dict(k)]
+        if len(lead) != 1:
+            raise OutOfVocabulary("norm of a vector that is not a multiple of the coefficient vector")
+        k, c = lead[0]
+        m = Poly({tuple((s_, p_) for s_, p_ in k if s_ != "b0"): c})
+        if not (m * B == s2):
+            raise OutOfVocabulary("norm of a vector that is not a multiple of the coefficient vector")
+        (mk, mc), = m.t.items()
+        from fractions import Fraction
+        import math
+        rn, rd = math.isqrt(mc.numerator), math.isqrt(mc.denominator)
+        if mc <= 0 or rn * rn != mc.numerator or rd * rd != mc.denominator or any(p_ % 2 for _s, p_ in mk):
+            raise OutOfVocabulary("norm: scale factor is not a perfect square")
+        root = Poly({tuple((s_, p_ // 2) for s_, p_ in mk): Fraction(rn, rd)})
+        return root * N
+
+    def unit(args):
+        n_ = norm(args)
+        return [as_poly(x).div(n_) for x in args[0]]
+    acc = {C + "SimpleQuadric::first": b, C + "SimpleQuadric::zeroth": z,
+           C + "norm": norm, C + "make_unit_vector": unit,
+           C + "negate": lambda a: -as_poly(a[0])}
+    it = Interp(f, acc)
+    try:
+        try:
+            it.run(f.r["ast"])
+            val = None
+        except Return as r:
+            val = r.v
+    except OutOfVocabulary as e:
+        raise AnalysisBroken("C12.6: QuadricPlaneConverter is outside the interpreter's vocabulary: %s" % e)
+    cx.require(isinstance(val, tuple) and val[0] == "construct" and val[1].endswith("Plane::Plane")
+               and len(val[2]) == 2 and isinstance(val[2][0], list),
+               "QuadricPlaneConverter does not return Plane{normal, displacement}: %r" % (val,))
+    n_r, d_r = val[2]
+    Ninv = Poly.const(1).div(N)
+    ok_n = all(as_poly(n_r[i]) == b[i] * Ninv for i in range(3))
+    ok_d = as_poly(d_r) == -z * Ninv
+    cx.ob("C12.6-plane-conversion", "QuadricPlaneConverter: the plane's normal is b/|b|", ok_n,
+          "normal = (%s)" % ", ".join(repr(x) for x in n_r), short(f.loc),
+          why="Plane stores a unit normal")
+    cx.ob("C12.6-plane-conversion", "QuadricPlaneConverter: the displacement is -z/|b| (same factor as the normal)",
+          ok_d, "d = %r  (N = |b|)" % (d_r,), short(f.loc),
+          why="n.x - d must be a positive multiple of b.x + z, otherwise the plane is displaced "
+              "and points between the two planes change sense")
